@@ -225,6 +225,11 @@ func (e *DocumentError) pointerToTheErrorCharacter() string {
 	spaces := content[begin:].CountSpacesFromLeft()
 
 	i := int(e.index) - int(begin) - spaces
+	if i < 0 {
+		// The position lies inside the leading blanks that are trimmed from the
+		// source line (or on a line break): point at the first shown column.
+		i = 0
+	}
 	return strings.Repeat("-", i) + "^"
 }
 
